@@ -470,6 +470,89 @@ def size_of(sc):
     return (len(sc["acts"]), sum(1 for a in sc["acts"] if a["form"] != "none"), len(sc_key(sc)))
 
 
+# ---------------------------------------------------------------------------------- clause "under the limits: unaffected"
+# A loop whose every iteration abandons an expression by a caught exception does the same work in iteration k as in
+# iteration 1, so with a stack-size limit that one iteration respects, N iterations respect it too.  JsCore.tla gives
+# the meaning of the 3-iteration instance (TLC evaluates it); the N-iteration instance must print the same totals
+# scaled by N/3 and complete normally under a small stack-size limit.
+HYG_N = 3000
+HYG_STACK = 2000
+
+
+def hygiene_programs(tier):
+    import jscore as J
+    I, S, num = J.ident, J.string, J.num
+    h = lambda: J.call(I("h"))
+    shapes = {
+        "arg": lambda: J.call(I("g"), num(5), num(6), h()),
+        "method": lambda: J.call(J.member(I("o"), "m"), num(5), h()),
+        "new": lambda: J.new(I("G"), num(5), h()),
+        "noncallable": lambda: J.call(num(0), num(5), num(6)),
+        "nested": lambda: J.call(I("g"), J.call(I("g"), num(5), h())),
+        "spread": lambda: J.call(I("g"), num(5), J.spread(h())),
+        "binop": lambda: J.binary("+", J.call(I("g")), h()),
+        "member-assign": lambda: J.assign(J.member(I("o"), "p"), h()),
+        "array": lambda: J.array(num(1), num(2), h()),
+    }
+    bump = lambda v: J.expr(J.update("++", False, I(v)))
+    handlers = {
+        "catch": lambda x: [J.try_(J.block(J.expr(x)), "e", J.block(bump("n")))],
+        "finally": lambda x: [J.try_(J.block(J.try_(J.block(J.expr(x)), 0, 0, J.block(bump("m")))), "e", J.block(bump("n")))],
+        "catch-in-finally": lambda x: [J.expr(J.assign(I("r"), J.call(I("f")), "+="))],
+    }
+    loops = ["for", "while", "dowhile", "forof"] if tier != "quick" else ["for", "forof"]
+    out = []
+    for (sn, mk), (hn, mh), lp in [(a, b, c) for a in shapes.items() for b in handlers.items() for c in loops]:
+        def build(n, mk=mk, mh=mh, lp=lp, hn=hn):
+            body = J.block(*mh(mk()))
+            if lp == "for":
+                loop = J.for_(J.var("i", num(0)), J.binary("<", I("i"), num(n)), J.update("++", False, I("i")), body)
+            elif lp == "while":
+                loop = J.while_(J.binary("<", J.update("++", False, I("i")), num(n)), body)
+            elif lp == "dowhile":
+                loop = J.dowhile(body, J.binary("<", J.update("++", True, I("i")), num(n)))
+            else:
+                loop = J.forof("const", "q", J.call(I("R"), num(n)), body)
+            pre = [J.function("g", [], []), J.function("G", [], []), J.function("h", [], [J.throw(num(1))]),
+                   J.let("o", J.obj(J.prop("m", J.fn([], [])))),
+                   J.generator("R", J.params("k"), [J.for_(J.var("j", num(0)), J.binary("<", I("j"), I("k")), J.update("++", False, I("j")), J.block(J.expr(J.yield_(I("j")))))]),
+                   J.function("f", [], [J.try_(J.block(J.return_(num(1))), 0, 0, J.block(J.try_(J.block(J.expr(mk())), "e", J.block(bump("n")))))]),
+                   J.var("i", num(0)), J.let("n", num(0)), J.let("m", num(0)), J.let("r", num(0))]
+            return J.program(pre + [loop, J.print_(S("totals"), I("n"), I("m"), I("r"))])
+        out.append(("hygiene/%s/%s/%s" % (lp, sn, hn), build))
+    return out
+
+
+def stack_hygiene(ck, hjs, tier):
+    import jscore as J
+    progs = hygiene_programs(tier)
+    small = [b(3) for _, b in progs]
+    exp, st = J.expect(small)
+    jobs = []
+    for k, ((name, b), e) in enumerate(zip(progs, exp)):
+        if not e["c"].startswith("value") or len(e["out"]) != 1:
+            raise vlib.ToolError("hygiene program %s has no normal expectation in JsCore: %s" % (name, e["c"]))
+        for tag, n in (("small", 3), ("large", HYG_N)):
+            jobs.append({"id": "%s#%s" % (name, tag), "cfg": {"loop": 10 * HYG_N, "stack": HYG_STACK}, "timeout_ms": 60000,
+                         "steps": [{"kind": "eval", "src": J.render(b(n))}]})
+    res_all = run_parallel(hjs, jobs)
+    n_fail = 0
+    for k, ((name, b), e) in enumerate(zip(progs, exp)):
+        small_res, large_res = res_all.get(name + "#small"), res_all.get(name + "#large")
+        want_small = e["out"]
+        want_large = [" ".join(("n:%d" % (int(t[2:]) // 3 * HYG_N) if t.startswith("n:") else t) for t in e["out"][0].split(" "))]
+        for tag, res, want in (("small", small_res, want_small), ("large", large_res, want_large)):
+            got = (res.get("steps") or [{}])[0] if res else {}
+            if got.get("c", "").split(":")[0] != "value" or got.get("out") != want:
+                n_fail += 1
+                ck.failure("hygiene/%s/%s" % (name.split("/", 1)[1], tag),
+                           {"program": name, "iterations": 3 if tag == "small" else HYG_N, "js": J.render(b(3 if tag == "small" else HYG_N)),
+                            "cfg": {"stack": HYG_STACK}, "expected": {"c": "value", "out": want}, "observed": res})
+                break
+    vlib.log("[C08] hygiene clause: %d programs x {3, %d} iterations, %d failing; TLC %d states" % (len(progs), HYG_N, n_fail, st.get("states", 0)))
+    return len(progs), st.get("states", 0)
+
+
 def run(tier, replay=None):
     ck = vlib.Check("C08", tier, "model_checking", replay)
     if os.environ.get("C08_NOBUILD"):                # development only
@@ -579,6 +662,10 @@ def run(tier, replay=None):
         size, detail, count = fails[sig]
         detail["scenarios_with_this_signature"] = count
         ck.failure(sig, detail)
+    n_hyg = 0
+    if not os.environ.get("C08_FAMILIES"):
+        n_hyg, hyg_states = stack_hygiene(ck, hjs, tier)
+        states += hyg_states
     for d, (want, got) in sorted(drift.items())[:20]:
         ck.drift += 1
         vlib.log(f"MODEL-DRIFT: {d}: boa's exact boundary differs from the model's exact path (still inside the window)")
@@ -587,7 +674,7 @@ def run(tier, replay=None):
                   distinct_nontrivial=n_nontriv, scenarios_with_limit_hit=n_fired, scenarios_under_all_limits=n_unlimited,
                   allowed_outcomes=n_out, routes=len(routes_seen), loop_forms=len(forms_seen - {"none"}),
                   limit_kinds=sorted(kinds_seen), chain_owners=sorted(owners_seen), print_kinds_observed=len(events_seen),
-                  scenarios_via_evaluate_async=n_async, failing_signatures=len(fails), known_signatures_hit=sorted(set(fails) & {k.get("signature") for k in ck.known}),
+                  scenarios_via_evaluate_async=n_async, hygiene_programs=n_hyg, hygiene_iterations=HYG_N, hygiene_stack_limit=HYG_STACK, failing_signatures=len(fails), known_signatures_hit=sorted(set(fails) & {k.get("signature") for k in ck.known}),
                   rule="one replay per TLC-enumerated scenario x limit triple (three host steps each: eval, run_jobs, call); "
                        "non-trivial = in the model's exact outcome a limit fires while a try/catch/finally wrapper is open on the "
                        "dead chain or the chain crosses a native re-entry / job / continuation route")
